@@ -240,3 +240,9 @@ def _dispatch_order(ctx):
     import c03
     n3 = core.adopt(ctx, c03, lambda o: o["rule"] == "C03.a" and ("prepare=start=end" in o["key"] or "arm-calls-the-runner" in o["key"]), "C12.f")
     ctx.floor("C12.f", n3, 7, "shared prepare/claim/release pairing obligations (C03.a)")
+    # a delivery is postponed only for a busy target below the root and otherwise run in-line, after the runner's entry pass
+    # flushed what was detected before it (a postponement that skips the entry pass lets an earlier despawn / removal reaction
+    # overtake or fall behind later events to the same target; shared with C02.a / C08.e)
+    n4 = core.adopt(ctx, c02, lambda o: o["rule"] == "C02.a" and any(k in o["key"] for k in ("postpone-only-busy-nonroot", "dispositions=", "single-disposition", "abort-only")), "C12.g")
+    n4 += core.adopt(ctx, c08, lambda o: o["rule"] == "C08.e" and "polls-before-postponing" in o["key"], "C12.g")
+    ctx.floor("C12.g", n4, 2, "shared disposition obligations (C02.a, C08.e)")
